@@ -12,6 +12,7 @@ import KmipModel.Client
 import KmipModel.Stream
 import Driver.IoStackIO
 import KmipModel.DecodeStack
+import KmipModel.DecodeCost
 import KmipModel.Io
 /-
   kvdriver: one request per input line, one reply per output line.  Runs the executable model and the
@@ -164,6 +165,11 @@ def step (line : String) : String :=
       | .err .eof => "eof"
       | .err .other => "err"
       | .panic s => "panic " ++ s
+    | _, _, _ => "bad-op"
+  -- deccost TYPE FIN HEX: what the cost semantics (KmipModel/DecodeCost.lean) charges for NewDecoder(bytes).Decode(&T{})
+  | ["deccost", ty, fin, hex] =>
+    match findSD ty, fromHex hex, (if fin = "eof" then some Fin.eof else if fin = "ioerr" then some Fin.ioerr else none) with
+    | some sd, some bs, some f => s!"cost {Cost.decodeCost sd bs f}"
     | _, _, _ => "bad-op"
   -- decstk TYPE FIN EAGER CHUNKS: NewDecoder(plain io.Reader delivering CHUNKS).Decode(&T{}) through the reader-stack model
   -- (KmipModel/DecodeStack.lean); reply: the value and how many bytes the Decoder's bufio has fetched from the source
